@@ -424,6 +424,10 @@ def run(ctx, report):
     from .c12 import state_copy_rule
     state_copy_rule(R12c, [ctx.mod('eval_abs')])
 
+    R13 = report.rule('C06.D13', 'eval_ExprCond evaluated from the source on every kind of evaluated condition (constants, symbolic flags, a conditional with constant arms 0 / non-zero in '
+                      'every combination, a comparison): the node it returns has the value of the selected arm under every valuation', floor=20)
+    cond_eval_rule(ctx, R13)
+
     R9 = report.rule('C06.D9', 'the memory model adds 32-bit constants to cell addresses: every address that enters it (read, store) is widened to 32 bits first', floor=3)
     addr_width_rule(R9, ea, methods)
 
@@ -1180,7 +1184,63 @@ def addr_width_rule(R, ea, methods):
                         where(ea, cells[0]), witness="emulating 67 8a 00 (mov al, [bx+si]) with ebx = 0x1000, esi = 0x20 raises ValueError('diff size! (0x1020+0xFFFFFFF9) 16 32')")
 
 
+def cond_eval_rule(ctx, R):
+    """eval_abs.eval_ExprCond(e) with self.eval_expr replaced by a table (the operands arrive already evaluated): its result is compared, by value on the valuations of the simplifier
+    family, with `src1 if cond != 0 else src2`.  A folding rule for conditions of a particular shape has to hold for every constant it matches."""
+    from .. import simpeval as SE
+    from ..consteval import Obj, PyRaise, Native
+    run = SE.results(ctx)['run']
+    ea = ctx.mod('eval_abs')
+    fn = ea.methods('eval_abs').get('eval_ExprCond')
+    if fn is None:
+        raise AnalysisError('eval_abs.eval_ExprCond not found')
+    A = SE.atoms()
+    x, y, z, f, b = A['x'], A['y'], A['z'], A['f'], A['b']
+    Top = type('ExprTop', (SE.Node,), {'FIELDS': (), 'KIND': 'Top'})
+    scope = dict(run.scope)
+    scope.setdefault('ExprTop', Top)
+    conds = [('constant 0', SE.C(0)), ('constant 1', SE.C(1)), ('constant 5', SE.C(5)), ('1-bit constant 0', SE.C(0, 1)), ('1-bit constant 1', SE.C(1, 1)),
+             ('symbolic 32-bit', z), ('symbolic flag', f), ('comparison', SE.Op('==', z, SE.C(0x80)))]
+    for k1 in (0, 1, 5):
+        for k2 in (0, 1, 5):
+            conds.append(('z ? %d : %d' % (k1, k2), SE.ExprCond(z, SE.C(k1), SE.C(k2))))
+            conds.append(('f ? %d : %d (8 bits)' % (k1, k2), SE.ExprCond(f, SE.C(k1, 8), SE.C(k2, 8))))
+    conds.append(('z ? b : 0', SE.ExprCond(z, b, SE.C(0, 8))))
+    conds.append(('(z ? 0 : 0) nested', SE.ExprCond(SE.ExprCond(f, z, SE.C(0)), SE.C(0), SE.C(0))))
+    envs = SE.valuations()
+    for label, cv in conds:
+        e_cond, e1, e2 = SE.ExprId('cond_in', SE.size_of(cv)), SE.ExprId('s1_in', 32), SE.ExprId('s2_in', 32)
+        table = {id(e_cond): cv, id(e1): x, id(e2): y}
+        me = Obj('self')
+        me.eval_expr = Native(lambda e_, cache=None, _t=table: _t.get(id(e_), e_))
+        inst = 'eval_ExprCond[%s]' % label
+        try:
+            out = Evaluator(scope).call_user(fn, [me, SE.ExprCond(e_cond, e1, e2)])
+        except PyRaise as e:
+            R.violation(inst, 'cond-eval:raises:%s' % e.exc_name, 'eval_ExprCond raises %s when the condition evaluates to %s' % (e.exc_name, SE.show(cv)), where(ea, fn))
+            continue
+        except NotConst as e:
+            raise AnalysisError('eval_abs.eval_ExprCond is outside the evaluable subset: %s' % e)
+        bad = None
+        for env in envs:
+            try:
+                want = SE.value(x, env) if SE.value(cv, env) != 0 else SE.value(y, env)
+                got = SE.value(out, env)
+            except (SE.IllTyped, ValueError, TypeError, AttributeError) as e:
+                bad = 'the result %s is malformed (%s)' % (SE.show(out) if isinstance(out, SE.Node) else repr(out), e)
+                break
+            if got != want:
+                bad = 'the result %s has the value %#x for z=%#x, f=%d, x=%#x, y=%#x; the selected arm has %#x' % (SE.show(out), got, env['z'], env['f'] & 1, env['x'], env['y'], want)
+                break
+        if bad:
+            R.violation(inst, 'cond-eval:%s' % ('arms-const' if '?' in label else label.split()[0]), 'eval_ExprCond with the condition evaluated to %s (arms x, y): %s' % (SE.show(cv), bad),
+                        where(ea, fn), witness='a condition whose arms both evaluate to 0')
+        else:
+            R.ok(inst, sample='condition %s: %s' % (SE.show(cv), SE.show(out)))
+
+
 MUTANTS = [
+    ('cond-const-arms-swapped', 'miasmx/expression/expression_eval_abstract.py', '            if cond.arg == 0:\n                return src2\n            else:\n                return src1\n', '            if cond.arg == 0:\n                return src1\n            else:\n                return src2\n', 'C06.D13'),
     ('shift-eval-count-masked', 'miasmx/expression/expression_eval_abstract.py', "    def eval_op_rshift(self, args, op_size, cast_int):\n        r = args[1]#&0x1F", "    def eval_op_rshift(self, args, op_size, cast_int):\n        r = args[1]&0x1F", 'C06.D5'),
     ('mem-read-not-folded', 'miasmx/expression/expression_eval_abstract.py', "                    if ee is not None:\n                        # every piece is a constant: so is the cell\n                        return ee\n", "", 'C06.D6'),
     ('const-compose-no-slice-shift', 'miasmx/expression/expression_eval_abstract.py', "                v = int(x.arg.arg) >> x.start\n", "                v = int(x.arg.arg)\n", 'C06.D6'),
